@@ -65,6 +65,12 @@ def t11(ctx: Ctx):
                 pass
         elif e.func[0] == "attr" and e.func[2] == "replace" and len(e.args) == 2 and e.args[1] == ("const", "") and e.args[0][0] == "const":
             removed.add(e.args[0][1])
+        elif e.func[0] == "attr" and e.func[2] == "translate" and len(e.args) == 1:
+            # deletion through a translation table: every code point mapped to None is removed everywhere
+            table = need(lambda: fold.fold(e.args[0]), "translation table of split_url")
+            if not isinstance(table, dict) or any(v is not None for v in table.values()):
+                raise AnalysisError("split_url: translate() with a table that does more than delete characters (unknown idiom)")
+            removed |= {chr(k) if isinstance(k, int) else k for k in table}
     ctx.instance(rule)
     ctx.ob(rule, fi.qual, "removed characters", frozenset(removed) == REMOVED, f"characters removed everywhere are {sorted(removed)!r}, expected TAB, CR, LF",
            where(fi, fi.node), sample="\\t \\r \\n")
@@ -97,16 +103,97 @@ def split_url_table(ctx: Ctx):
     ok = all(t == ("const", "") or (t[0] == "call" and t[1][0] == "attr" and t[1][2] == "lower") for t in schemes) and len(schemes) >= 2
     ctx.ob(rule, fi.qual, "scheme value", ok, f"the scheme must be '' or the lower-cased text before the first ':' (found {[show(t)[:40] for t in schemes]})",
            where(fi, fi.node), sample="'' | url[:i].lower()")
-    # authority: starts at '//' at offset 0, ends at the earliest of '/', '?', '#'
+    # authority: starts at '//' at offset 0, ends at the earliest of '/', '?', '#'.  Two idioms are understood:
+    #  (A) a loop over a delimiter string with `find(c, 2)` and a running minimum,
+    #  (B) `min(...)` over the non-negative `find(<delimiter>, 2)` results with the text length as default;
+    # anything else is an unknown idiom (exit 2), not a violation.
+    def is_find(t):
+        return t[0] == "call" and t[1][0] == "attr" and t[1][2] == "find" and len(t[2]) == 2 and t[2][1] == ("const", 2)
+
     auth_delims = {}
+    min_ok = []
     for e in r.by_kind("call"):
-        if e.func[0] == "attr" and e.func[2] == "find" and len(e.args) == 2 and e.args[0][0] == "elem" and e.args[1] == ("const", 2):
+        if is_find(e.value) and e.args[0][0] == "elem":
             src = e.args[0][1]
             url_t = e.func[1]
             hq = truth(("cmp", "In", ("const", "?"), url_t), e.state.facts)
             hh = truth(("cmp", "In", ("const", "#"), url_t), e.state.facts)
             if src[0] == "const":
                 auth_delims.setdefault((src[1], hq, hh), e)
+    for e in r.by_kind("cond"):
+        t = e.test
+        if t[0] != "cmp" or t[1] not in ("Lt", "LtE", "Gt", "GtE"):
+            continue
+        small, big = (t[2], t[3]) if t[1] in ("Lt", "LtE") else (t[3], t[2])
+        # position < running minimum (a loop-carried variable), and the position then becomes the minimum
+        if is_find(small) and small[2][0][0] == "elem" and big[0] == "phi" and \
+                any(st.env.get(big[2]) == small for st in r.backedges.get(big[1], ())):
+            min_ok.append(e)
+    for e in r.by_kind("call"):
+        # min(<iterable of positions>, default=...): the complete candidate set in one call
+        if e.func != ("builtin", "min") or len(e.args) != 1:
+            continue
+        finds = [t for a in e.args for t in walk(a) if is_find(t) and
+                 (t[2][0][0] == "const" or (t[2][0][0] == "elem" and t[2][0][1][0] == "const" and isinstance(t[2][0][1][1], str)))]
+        if not finds:
+            continue
+        url_t = finds[0][1][1]
+        chars = "".join(sorted({c for t in finds for c in (t[2][0][1] if t[2][0][0] == "const" else t[2][0][1][1])}))
+        hq = truth(("cmp", "In", ("const", "?"), url_t), e.state.facts)
+        hh = truth(("cmp", "In", ("const", "#"), url_t), e.state.facts)
+        auth_delims.setdefault((chars, hq, hh), e)
+        # min() keeps the smallest; "not found" (-1) must have been filtered out and the default must be the end of the text
+        comps = [t for a in e.args for t in walk(a) if t[0] == "comp" and len(t) > 4]
+        nonneg = any(_is_nonneg_filter(f) for c in comps for f in c[4])
+        default = dict(e.kwargs).get("default")
+        if nonneg and default == ("call", ("builtin", "len"), (url_t,), ()):
+            min_ok.append(e)
+    # (C) a tree of two-argument min() calls over find(<delimiter>, 2) results and the text length, used as the end of the
+    #     authority slice url[2:END]: every leaf must be known non-negative on its path
+    rets5 = [(s_, v_) for s_, v_, _n in r.returns if v_[0] == "tuple" and len(v_[1]) == 5]
+    for s_, v_ in rets5:
+        net = v_[1][1]
+        if not (net[0] == "sub" and net[2][0] == "slice" and net[2][1] == ("const", 2)):
+            continue
+        url_t, end = net[1], net[2][2]
+        leaves = _min_leaves(end, url_t, is_find)
+        if leaves is None:
+            continue
+        f_ = s_.facts
+        found = {t[2][0][1] for t in leaves if t != "end"}
+        # a delimiter that was searched and is known absent on this path is accounted for as well
+        absent = {c for c in "/?#" if truth(("cmp", "Lt", ("call", ("attr", url_t, "find"), (("const", c), ("const", 2)), ()), ("const", 0)), f_) is True}
+        chars = "".join(sorted(found | absent))
+        hq = truth(("cmp", "In", ("const", "?"), url_t), f_)
+        hh = truth(("cmp", "In", ("const", "#"), url_t), f_)
+        auth_delims.setdefault((chars, hq, hh), None)
+        starts = truth(("cmp", "Eq", ("sub", url_t, ("slice", ("const", None), ("const", 2), ("const", None))), ("const", "//")), f_) is True
+        nonneg = all(t == "end" or truth(("cmp", "Lt", t, ("const", 0)), f_) is False or
+                     (starts and t[2][0][1] != "/" and truth(("cmp", "In", t[2][0], url_t), f_) is True) for t in leaves)
+        if nonneg and (len(leaves) == 1 or end[0] == "call"):
+            min_ok.append(None)
+        else:
+            min_ok.append(False)
+    # (D) fragment and query are cut off first (each at its first '#' / '?'), then the authority is the text between the
+    #     leading '//' and the first '/' of what is left
+    for s_, v_ in rets5:
+        net = v_[1][1]
+        if net[0] in ("item", "sub") and net[2] in (0, ("const", 0)) and net[1][0] == "call" and net[1][1][0] == "attr" \
+                and net[1][1][2] == "partition" and net[1][2] == (("const", "/"),):
+            rest = net[1][1][1]
+            if rest[0] == "sub" and rest[2] == ("slice", ("const", 2), ("const", None), ("const", None)):
+                cut = {"/"}
+                for t in walk(rest[1]):
+                    if t[0] in ("item", "sub") and t[2] in (0, ("const", 0)) and t[1][0] == "call" and t[1][1][0] == "attr" \
+                            and t[1][1][2] == "partition" and t[1][2] and t[1][2][0][0] == "const" and t[1][2][0][1] in ("?", "#"):
+                        cut.add(t[1][2][0][1])
+                auth_delims.setdefault(("".join(sorted(cut)), None, None), None)
+                min_ok.append(None)         # partition() cuts at the first occurrence: the earliest by construction
+    if any(x is False for x in min_ok):
+        min_ok = []
+    if not auth_delims:
+        raise AnalysisError("split_url: the end of the authority is located by neither a find(c, 2) loop with a running minimum nor "
+                            "min() over find() results (unknown idiom)")
     ctx.instance(rule)
     bad = []
     for (chars, hq, hh), e in auth_delims.items():
@@ -115,23 +202,11 @@ def split_url_table(ctx: Ctx):
             bad.append(f"{chars!r} when '?' present={hq}, '#' present={hh}")
         if set(chars) - {"/", "?", "#"}:
             bad.append(f"{chars!r} contains a non-delimiter")
-    ctx.ob(rule, fi.qual, "authority terminators", bool(auth_delims) and not bad,
-           "the authority must end at the earliest of '/', '?', '#': " + "; ".join(bad) if bad else "no earliest-delimiter search found",
+    ctx.ob(rule, fi.qual, "authority terminators", not bad,
+           "the authority must end at the earliest of '/', '?', '#': " + "; ".join(bad),
            where(fi, fi.node), sample=f"{sorted(k[0] for k in auth_delims)}")
-    # the minimum is kept: `if wdelim >= 0 and wdelim < delim: delim = wdelim`
     ctx.instance(rule)
-    def is_find(t):
-        return t[0] == "call" and t[1][0] == "attr" and t[1][2] == "find" and len(t[2]) == 2 and t[2][0][0] == "elem"
-    mins = []
-    for e in r.by_kind("cond"):
-        t = e.test
-        if t[0] != "cmp" or t[1] not in ("Lt", "LtE", "Gt", "GtE"):
-            continue
-        small, big = (t[2], t[3]) if t[1] in ("Lt", "LtE") else (t[3], t[2])
-        # position < running minimum (a loop-carried variable), and the position then becomes the minimum
-        if is_find(small) and big[0] == "phi" and any(st.env.get(big[2]) == small for st in r.backedges.get(big[1], ())):
-            mins.append(e)
-    ctx.ob(rule, fi.qual, "earliest terminator wins", bool(mins), "no comparison keeps the smallest terminator position", where(fi, fi.node),
+    ctx.ob(rule, fi.qual, "earliest terminator wins", bool(min_ok), "no comparison keeps the smallest terminator position", where(fi, fi.node),
            sample="position < current minimum")
     # ORD4: the fragment is split off before the query
     rule4 = "ORD4"
@@ -151,6 +226,43 @@ def split_url_table(ctx: Ctx):
     ctx.ob(rule4, fi.qual, "order of the fragment and query splits", ok, why or "", where(fi, fi.node), sample="partition('#') then partition('?') on its head")
 
 
+def _min_leaves(t, url_t, is_find):
+    """Leaves of a tree of min(a, b) calls: find(<const>, 2) on the URL text, or its length ('end'); None = not such a tree."""
+    if t[0] == "call" and t[1] == ("builtin", "min") and len(t[2]) >= 2 and not t[3]:
+        out = []
+        for a in t[2]:
+            sub = _min_leaves(a, url_t, is_find)
+            if sub is None:
+                return None
+            out.extend(sub)
+        return out
+    if is_find(t) and t[1][1] == url_t and t[2][0][0] == "const":
+        return [t]
+    if t == ("call", ("builtin", "len"), (url_t,), ()):
+        return ["end"]
+    return None
+
+
+def _is_nonneg_filter(f):
+    """x >= 0, x > -1, x != -1 in any spelling"""
+    from ..interp import norm_atom
+    k, pol = norm_atom(f)
+    if k[0] != "cmp":
+        return False
+    op, a, b = k[1], k[2], k[3]
+    if op == "LtE" and a == ("const", 0) and pol:
+        return True
+    if op == "Lt" and b == ("const", 0) and not pol:
+        return True
+    if op == "Lt" and a == ("const", -1) and pol:
+        return True
+    if op == "LtE" and b == ("const", -1) and not pol:
+        return True
+    if op == "Eq" and ("const", -1) in (a, b) and not pol:
+        return True
+    return False
+
+
 def scheme_detection(ctx, rule, fi, r, by_delim):
     """The scheme ends at the first ':' and consists of scheme characters only. Two idioms are understood: the
     find(':') + per-character membership scan, and an anchored regular expression `<class>+:`; anything else is exit 2."""
@@ -167,6 +279,17 @@ def scheme_detection(ctx, rule, fi, r, by_delim):
                     sets.append(set(Folder(ctx.model).fold(t[3])))
                 except CannotFold:
                     pass
+        # ... or `<set of scheme characters>.issuperset(<prefix>)`
+        for e in r.by_kind("cond"):
+            for t in walk(e.test):
+                if t[0] == "call" and t[1][0] == "attr" and t[1][2] == "issuperset" and len(t[2]) == 1:
+                    try:
+                        sets.append(set(Folder(ctx.model).fold(t[1][1])))
+                    except CannotFold:
+                        pass
+        if not sets:
+            raise AnalysisError("split_url: the scheme ends at a ':' search but no membership test of its characters was recognised "
+                                "(per-character `in <scheme characters>` or `<set>.issuperset(prefix)`): unknown idiom")
         ok = dirs == {"first"} and bool(sets) and all(s_ == want for s_ in sets)
         ctx.ob(rule, fi.qual, "scheme end ':' and scheme characters", ok,
                f"the scheme must end at the FIRST ':' (found {sorted(dirs)}) and consist of scheme characters only "
@@ -187,6 +310,8 @@ def scheme_detection(ctx, rule, fi, r, by_delim):
     problems = []
     for (tag, pat, flags), e in pats:
         items = list(sp.parse(pat, flags))
+        if items and str(items[0][0]) == "SUBPATTERN" and len(list(items[0][1][3])) == 1:
+            items[0] = list(items[0][1][3])[0]        # (<class>+): a capture group around the scheme characters
         if len(items) != 2 or str(items[0][0]) != "MAX_REPEAT" or str(items[1][0]) != "LITERAL" or chr(items[1][1]) != ":":
             raise AnalysisError(f"split_url: scheme pattern {pat!r} is not `<class>+:` (unknown idiom)")
         lo, hi, body = items[0][1]
@@ -244,7 +369,20 @@ def split_netloc_table(ctx: Ctx):
                    for x in (recv,) + tuple(e.args[1:]) for t in walk(x))
     port_after_bracket = [e for e, d, recv in colons if after_bracket(e, recv)]
     plain = [e for e, d, recv in colons if not after_bracket(e, recv)]
-    guarded = [e for e in plain if any((not fv) and k[0] == "cmp" and k[1] == "In" and k[2] == ("const", "[") for k, fv in e.state.facts.items())]
+    def no_bracket(facts):
+        # "there is no '['":  '[' not in x,  x.find('[') < 0,  x.find('[') == -1
+        for k, fv in facts.items():
+            if k[0] != "cmp":
+                continue
+            if k[1] == "In" and k[2] == ("const", "[") and fv is False:
+                return True
+            pos = [x for x in (k[2], k[3]) if x[0] == "call" and x[1][0] == "attr" and x[1][2] in ("find", "index") and x[2][:1] == (("const", "["),)]
+            if pos and truth(("cmp", "Lt", pos[0], ("const", 0)), facts) is True:
+                return True
+            if pos and truth(("cmp", "Eq", pos[0], ("const", -1)), facts) is True:
+                return True
+        return False
+    guarded = [e for e in plain if no_bracket(e.state.facts)]
     ok = bool(lb) and bool(rb) and bool(port_after_bracket) and bool(guarded) and all(d == "first" for _e, d in lb + rb)
     ctx.ob(rule, fi.qual, "host/port separator", ok,
            "the port must be split at the ':' after ']' for bracketed hosts and at the first ':' only when there is no '['",
